@@ -860,6 +860,187 @@ package client
 //@   loop 4:
 //@     invariant forall k string :: has(m.clientStates, k) ==> m.clientStates[k] != nil
 
+// ---- sync.go (C02): the catch-up step for one node ---------------------------------------------------------------
+// Decided here (one call of syncNode for a node whose hashes differ, every content of the two copies): which points
+// cross the link. upSent(a) / downSent(j): local node point a was sent upstream / upstream node point j was sent down
+// (ghost flags set at the four send statements, whose text - connection, node id, point variable - is the anchor);
+// eUpSent / eDownSent the same for edge points. NOT decided: that two instances converge over whole histories, link
+// faults and message timings (the real-time forwarding goroutines, NATS delivery, the store on each side).
+//@ model func upSent(g *verifGhost, a int) bool
+//@ model func downSent(g *verifGhost, j int) bool
+//@ model func eUpSent(g *verifGhost2, a int) bool
+//@ model func eDownSent(g *verifGhost2, j int) bool
+//@ model func eProcBy(g *verifGhost2, j int) int
+//@ model func eDownBy(g *verifGhost2, j int) int
+//@ spec func pm(p data.Point, q data.Point) bool = (q.Type == "" || q.Type == p.Type) && q.Key == p.Key
+//@ spec func newer(p data.Point, q data.Point) bool = ns(p.Time) > ns(q.Time)
+//@ spec func nomatch(L []data.Point, U []data.Point, a int) bool = forall j int :: 0 <= j && j < len(U) ==> !pm(L[a], U[j])
+//@ spec func upDue(L []data.Point, U []data.Point, a int) bool = nomatch(L, U, a) || (exists j int :: 0 <= j && j < len(U) && pm(L[a], U[j]) && newer(L[a], U[j]))
+//@ spec func downDue(L []data.Point, U []data.Point, j int) bool = (forall a int :: 0 <= a && a < len(L) ==> !pm(L[a], U[j])) || (exists a int :: 0 <= a && a < len(L) && pm(L[a], U[j]) && newer(U[j], L[a]))
+//@ spec func upKept() bool = forall k int :: upSent(verifG, k) == before(upSent(verifG, k))
+//@ spec func eUpKept() bool = forall k int :: eUpSent(verifG2, k) == before(eUpSent(verifG2, k))
+//@ extern client.SendEdgePoint(nc, nodeID, parentID, point, ack)
+//@   modifies state(nc)
+//@ extern client.SubjectNodePoints(nodeID)
+//@ extern data.(NodeEdge).IsTombstone(n)
+//@ extern errors.New(text)
+//@   ensures result != nil
+//@ extern client.(*SyncClient).sendNodesRemote(up, node)
+//@   modifies state(up.nc)
+//@ extern client.(*SyncClient).sendNodesLocal(up, node)
+//@   modifies state(up.nc)
+//@ extern client.(*SyncClient).subscribeRemoteNode(up, parent, id)
+//@   modifies state(up.nc)
+
+//@ func (*SyncClient).syncNode
+//@   props C02
+//@   local up *client.SyncClient#1
+//@   local nodeLocal data.NodeEdge#1
+//@   local nodeUps []data.NodeEdge#2
+//@   local nodeUp data.NodeEdge#2
+//@   local p data.Point#2
+//@   local upstreamProcessed map[int]bool#1
+//@   local found bool#4
+//@   local pUp data.Point#5
+//@   local children []data.NodeEdge#3
+//@   local upChildren []data.NodeEdge#4
+//@   local upChildProcessed map[int]bool#2
+//@   local child data.NodeEdge#4
+//@   local upChild data.NodeEdge#5
+//@   option partial mathint=SyncCount
+//@   requires up != nil
+//@   modifies up, &up.rootRemote, &up.subRemoteUp, &up.config.SyncCount, state(up.nc), state(client.verifGhost), state(client.verifGhost2)
+//@   havoc state(client.verifGhost) at "GetNodes(up.nc, parent, id, \"\", true)"
+//@   assume sync-ghost-reset: (forall k int :: !upSent(verifG, k) && !downSent(verifG, k)) at "GetNodes(up.nc, parent, id, \"\", true)"
+//@   havoc state(client.verifGhost) at "SendNodePoint(up.ncRemote, nodeUp.ID, p, true)"
+//@   assume up-noted: (forall k int :: upSent(verifG, k) == (before(upSent(verifG, k)) || k == rangeindex4)) && (forall k int :: downSent(verifG, k) == before(downSent(verifG, k))) at "SendNodePoint(up.ncRemote, nodeUp.ID, p, true)"
+//@   havoc state(client.verifGhost) at "SendNodePoint(up.nc, nodeLocal.ID, pUp, true)" #1
+//@   assume down-noted: (forall k int :: downSent(verifG, k) == (before(downSent(verifG, k)) || k == rangeindex5)) && upKept() at "SendNodePoint(up.nc, nodeLocal.ID, pUp, true)" #1
+//@   havoc state(client.verifGhost) at "SendNodePoint(up.nc, nodeLocal.ID, pUp, true)" #2
+//@   assume down-noted: (forall k int :: downSent(verifG, k) == (before(downSent(verifG, k)) || k == rangeindex6)) && upKept() at "SendNodePoint(up.nc, nodeLocal.ID, pUp, true)" #2
+//@   assert [C02] an-upstream-point-comes-down-only-if-newer: pm(p, pUp) && newer(pUp, p) && pUp == nodeUp.Points[rangeindex5] && p == nodeLocal.Points[rangeindex4] at "SendNodePoint(up.nc, nodeLocal.ID, pUp, true)" #1
+//@   assert [C02] or-if-no-local-point-has-its-identity: pUp == nodeUp.Points[rangeindex6] && (forall a int :: 0 <= a && a < len(nodeLocal.Points) ==> !pm(nodeLocal.Points[a], pUp)) at "SendNodePoint(up.nc, nodeLocal.ID, pUp, true)" #2
+//@   havoc state(client.verifGhost2) at "GetNodes(up.nc, parent, id, \"\", true)"
+//@   assume sync-ghost-reset: (forall k int :: !eUpSent(verifG2, k) && !eDownSent(verifG2, k)) at "GetNodes(up.nc, parent, id, \"\", true)"
+//@   havoc state(client.verifGhost2) at "SendEdgePoint(up.ncRemote, nodeUp.ID, nodeUp.Parent, p, true)"
+//@   assume up-noted: (forall k int :: eUpSent(verifG2, k) == (before(eUpSent(verifG2, k)) || k == rangeindex7)) && (forall k int :: eDownSent(verifG2, k) == before(eDownSent(verifG2, k))) at "SendEdgePoint(up.ncRemote, nodeUp.ID, nodeUp.Parent, p, true)"
+//@   havoc state(client.verifGhost2) at "SendEdgePoint(up.nc, nodeLocal.ID, nodeLocal.Parent, pUp, true)" #1
+//@   assume down-noted: (forall k int :: eDownSent(verifG2, k) == (before(eDownSent(verifG2, k)) || k == rangeindex8)) && eUpKept() at "SendEdgePoint(up.nc, nodeLocal.ID, nodeLocal.Parent, pUp, true)" #1
+//@   havoc state(client.verifGhost2) at "SendEdgePoint(up.nc, nodeLocal.ID, nodeLocal.Parent, pUp, true)" #2
+//@   assume down-noted: (forall k int :: eDownSent(verifG2, k) == (before(eDownSent(verifG2, k)) || k == rangeindex9)) && eUpKept() at "SendEdgePoint(up.nc, nodeLocal.ID, nodeLocal.Parent, pUp, true)" #2
+//@   assert [C02] an-upstream-edge-point-comes-down-only-if-newer: pm(p, pUp) && newer(pUp, p) && pUp == nodeUp.EdgePoints[rangeindex8] && p == nodeLocal.EdgePoints[rangeindex7] && nodeLocal.ID != up.rootLocal.ID at "SendEdgePoint(up.nc, nodeLocal.ID, nodeLocal.Parent, pUp, true)" #1
+//@   assert [C02] or-if-no-local-edge-point-has-its-identity: pUp == nodeUp.EdgePoints[rangeindex9] && (forall a int :: 0 <= a && a < len(nodeLocal.EdgePoints) ==> !pm(nodeLocal.EdgePoints[a], pUp)) && nodeLocal.ID != up.rootLocal.ID at "SendEdgePoint(up.nc, nodeLocal.ID, nodeLocal.Parent, pUp, true)" #2
+//@   assert [C02] edge-points-go-up-exactly-when-due: nodeLocal.ID != up.rootLocal.ID ==> (forall a int :: 0 <= a && a < len(nodeLocal.EdgePoints) ==> (upDue(nodeLocal.EdgePoints, nodeUp.EdgePoints, a) <==> eUpSent(verifG2, a))) at "GetNodes(up.ncLocal, nodeLocal.ID, \"all\", \"\", false)"
+//@   assert [C02] newer-upstream-edge-points-come-down: nodeLocal.ID != up.rootLocal.ID ==> (forall a int, j int :: 0 <= a && a < len(nodeLocal.EdgePoints) && 0 <= j && j < len(nodeUp.EdgePoints) && pm(nodeLocal.EdgePoints[a], nodeUp.EdgePoints[j]) && newer(nodeUp.EdgePoints[j], nodeLocal.EdgePoints[a]) ==> eDownSent(verifG2, j)) at "GetNodes(up.ncLocal, nodeLocal.ID, \"all\", \"\", false)"
+//@   assert [C02] upstream-only-edge-points-come-down: nodeLocal.ID != up.rootLocal.ID ==> (forall j int :: 0 <= j && j < len(nodeUp.EdgePoints) && (forall a int :: 0 <= a && a < len(nodeLocal.EdgePoints) ==> !pm(nodeLocal.EdgePoints[a], nodeUp.EdgePoints[j])) ==> eDownSent(verifG2, j)) at "GetNodes(up.ncLocal, nodeLocal.ID, \"all\", \"\", false)"
+//@   assert [C02] the-root-edge-is-not-synced: nodeLocal.ID == up.rootLocal.ID ==> (forall k int :: !eUpSent(verifG2, k) && !eDownSent(verifG2, k)) at "GetNodes(up.ncLocal, nodeLocal.ID, \"all\", \"\", false)"
+//@   assert [C02] recursion-only-into-a-child-both-sides-have-with-different-hashes: child.ID == upChild.ID && child.Hash != upChild.Hash && child == children[rangeindex10] && upChild == upChildren[rangeindex11] at "up.syncNode(nodeLocal.ID, child.ID)"
+//@   assert [C02] a-child-goes-up-only-if-upstream-has-none-with-its-id: child == children[rangeindex10] && (forall j int :: 0 <= j && j < len(upChildren) ==> upChildren[j].ID != child.ID) at "up.sendNodesRemote(child)"
+//@   assert [C02] a-child-comes-down-only-if-no-local-child-has-its-id: upChild == upChildren[rangeindex12] && (forall a int :: 0 <= a && a < len(children) ==> children[a].ID != upChild.ID) at "up.sendNodesLocal(upChild)"
+//@   assert [C02] node-points-go-up-exactly-when-due: forall a int :: 0 <= a && a < len(nodeLocal.Points) ==> (upDue(nodeLocal.Points, nodeUp.Points, a) <==> upSent(verifG, a)) at "GetNodes(up.ncLocal, nodeLocal.ID, \"all\", \"\", false)"
+//@   assert [C02] newer-upstream-node-points-come-down: forall a int, j int :: 0 <= a && a < len(nodeLocal.Points) && 0 <= j && j < len(nodeUp.Points) && pm(nodeLocal.Points[a], nodeUp.Points[j]) && newer(nodeUp.Points[j], nodeLocal.Points[a]) ==> downSent(verifG, j) at "GetNodes(up.ncLocal, nodeLocal.ID, \"all\", \"\", false)"
+//@   assert [C02] upstream-only-node-points-come-down: forall j int :: 0 <= j && j < len(nodeUp.Points) && (forall a int :: 0 <= a && a < len(nodeLocal.Points) ==> !pm(nodeLocal.Points[a], nodeUp.Points[j])) ==> downSent(verifG, j) at "GetNodes(up.ncLocal, nodeLocal.ID, \"all\", \"\", false)"
+//@   loop 1:
+//@     invariant -1 <= rangeindex && rangeindex < len(nodeUps) || rangeindex == -1
+//@     decreases len(nodeUps) - rangeindex
+//@   loop 2:
+//@     invariant -1 <= rangeindex && rangeindex < len(nodeUp.EdgePoints) || rangeindex == -1
+//@     invariant sameSlice(nodeUp.EdgePoints, preloop(nodeUp.EdgePoints))
+//@     decreases len(nodeUp.EdgePoints) - rangeindex
+//@   loop 3:
+//@     invariant -1 <= rangeindex && rangeindex < len(nodeLocal.EdgePoints) || rangeindex == -1
+//@     invariant sameSlice(nodeLocal.EdgePoints, preloop(nodeLocal.EdgePoints))
+//@     decreases len(nodeLocal.EdgePoints) - rangeindex
+//@   loop 4:
+//@     merge
+//@     invariant -1 <= rangeindex && rangeindex < len(nodeLocal.Points) || rangeindex == -1
+//@     invariant forall k int :: !eUpSent(verifG2, k) && !eDownSent(verifG2, k)
+//@     invariant upstreamProcessed != nil && allocd(upstreamProcessed)
+//@     invariant [C02] forall a int :: 0 <= a && a <= rangeindex ==> (upDue(nodeLocal.Points, nodeUp.Points, a) <==> upSent(verifG, a))
+//@     invariant [C02] forall a int :: a < 0 || a > rangeindex ==> !upSent(verifG, a)
+//@     invariant [C02] forall a int, j int :: 0 <= a && a <= rangeindex && 0 <= j && j < len(nodeUp.Points) && pm(nodeLocal.Points[a], nodeUp.Points[j]) ==> has(upstreamProcessed, j) && (newer(nodeUp.Points[j], nodeLocal.Points[a]) ==> downSent(verifG, j))
+//@     invariant [C02] forall j int :: has(upstreamProcessed, j) ==> 0 <= j && j < len(nodeUp.Points) && (exists a int :: 0 <= a && a <= rangeindex && pm(nodeLocal.Points[a], nodeUp.Points[j]))
+//@     modifies upstreamProcessed, state(up.nc), state(client.verifGhost)
+//@     decreases len(nodeLocal.Points) - rangeindex
+//@   loop 5:
+//@     invariant -1 <= rangeindex && rangeindex < len(nodeUp.Points) || rangeindex == -1
+//@     invariant upstreamProcessed != nil && allocd(upstreamProcessed)
+//@     invariant 0 <= rangeindex4 && rangeindex4 < len(nodeLocal.Points) && p == nodeLocal.Points[rangeindex4]
+//@     invariant [C02] found <==> (exists j int :: 0 <= j && j <= rangeindex && pm(p, nodeUp.Points[j]))
+//@     invariant [C02] upSent(verifG, rangeindex4) <==> (exists j int :: 0 <= j && j <= rangeindex && pm(p, nodeUp.Points[j]) && newer(p, nodeUp.Points[j]))
+//@     invariant [C02] forall a int :: 0 <= a && a < rangeindex4 ==> (upDue(nodeLocal.Points, nodeUp.Points, a) <==> upSent(verifG, a))
+//@     invariant [C02] forall a int :: a < 0 || a > rangeindex4 ==> !upSent(verifG, a)
+//@     invariant [C02] forall a int, j int :: 0 <= a && a <= rangeindex4 && 0 <= j && j < len(nodeUp.Points) && (a < rangeindex4 || j <= rangeindex) && pm(nodeLocal.Points[a], nodeUp.Points[j]) ==> has(upstreamProcessed, j) && (newer(nodeUp.Points[j], nodeLocal.Points[a]) ==> downSent(verifG, j))
+//@     invariant [C02] forall j int :: has(upstreamProcessed, j) ==> 0 <= j && j < len(nodeUp.Points) && (exists a int :: 0 <= a && a <= rangeindex4 && (a < rangeindex4 || j <= rangeindex) && pm(nodeLocal.Points[a], nodeUp.Points[j]))
+//@     modifies upstreamProcessed, state(up.nc), state(client.verifGhost)
+//@     decreases len(nodeUp.Points) - rangeindex
+//@   loop 6:
+//@     invariant -1 <= rangeindex && rangeindex < len(nodeUp.Points) || rangeindex == -1
+//@     invariant [C02] forall a int :: 0 <= a && a < len(nodeLocal.Points) ==> (upDue(nodeLocal.Points, nodeUp.Points, a) <==> upSent(verifG, a))
+//@     invariant [C02] forall a int :: a < 0 || a >= len(nodeLocal.Points) ==> !upSent(verifG, a)
+//@     invariant [C02] forall a int, j int :: 0 <= a && a < len(nodeLocal.Points) && 0 <= j && j < len(nodeUp.Points) && pm(nodeLocal.Points[a], nodeUp.Points[j]) ==> has(upstreamProcessed, j) && (newer(nodeUp.Points[j], nodeLocal.Points[a]) ==> downSent(verifG, j))
+//@     invariant [C02] forall j int :: has(upstreamProcessed, j) ==> 0 <= j && j < len(nodeUp.Points) && (exists a int :: 0 <= a && a < len(nodeLocal.Points) && pm(nodeLocal.Points[a], nodeUp.Points[j]))
+//@     invariant [C02] forall j int :: 0 <= j && j <= rangeindex && !has(upstreamProcessed, j) ==> downSent(verifG, j)
+//@     invariant [C02] forall j int :: 0 <= j && j <= rangeindex && (forall a int :: 0 <= a && a < len(nodeLocal.Points) ==> !pm(nodeLocal.Points[a], nodeUp.Points[j])) ==> downSent(verifG, j)
+//@     modifies state(up.nc), state(client.verifGhost)
+//@     decreases len(nodeUp.Points) - rangeindex
+//@   loop 7:
+//@     merge
+//@     invariant -1 <= rangeindex && rangeindex < len(nodeLocal.EdgePoints) || rangeindex == -1
+//@     invariant nodeLocal.ID != up.rootLocal.ID
+//@     invariant [C02] forall a int :: 0 <= a && a < len(nodeLocal.Points) ==> (upDue(nodeLocal.Points, nodeUp.Points, a) <==> upSent(verifG, a))
+//@     invariant [C02] forall a int, j int :: 0 <= a && a < len(nodeLocal.Points) && 0 <= j && j < len(nodeUp.Points) && pm(nodeLocal.Points[a], nodeUp.Points[j]) && newer(nodeUp.Points[j], nodeLocal.Points[a]) ==> downSent(verifG, j)
+//@     invariant [C02] forall j int :: 0 <= j && j < len(nodeUp.Points) && (forall a int :: 0 <= a && a < len(nodeLocal.Points) ==> !pm(nodeLocal.Points[a], nodeUp.Points[j])) ==> downSent(verifG, j)
+//@     invariant upstreamProcessed != nil && allocd(upstreamProcessed)
+//@     invariant [C02] forall a int :: 0 <= a && a <= rangeindex ==> (upDue(nodeLocal.EdgePoints, nodeUp.EdgePoints, a) <==> eUpSent(verifG2, a))
+//@     invariant [C02] forall a int :: a < 0 || a > rangeindex ==> !eUpSent(verifG2, a)
+//@     invariant [C02] forall a int, j int :: 0 <= a && a <= rangeindex && 0 <= j && j < len(nodeUp.EdgePoints) && pm(nodeLocal.EdgePoints[a], nodeUp.EdgePoints[j]) ==> has(upstreamProcessed, j) && (newer(nodeUp.EdgePoints[j], nodeLocal.EdgePoints[a]) ==> eDownSent(verifG2, j))
+//@     invariant [C02] forall j int :: has(upstreamProcessed, j) ==> 0 <= j && j < len(nodeUp.EdgePoints) && (exists a int :: 0 <= a && a <= rangeindex && pm(nodeLocal.EdgePoints[a], nodeUp.EdgePoints[j]))
+//@     modifies upstreamProcessed, state(up.nc), state(client.verifGhost2)
+//@     decreases len(nodeLocal.EdgePoints) - rangeindex
+//@   loop 8:
+//@     invariant -1 <= rangeindex && rangeindex < len(nodeUp.EdgePoints) || rangeindex == -1
+//@     invariant upstreamProcessed != nil && allocd(upstreamProcessed)
+//@     invariant 0 <= rangeindex7 && rangeindex7 < len(nodeLocal.EdgePoints) && p == nodeLocal.EdgePoints[rangeindex7]
+//@     invariant [C02] found <==> (exists j int :: 0 <= j && j <= rangeindex && pm(p, nodeUp.EdgePoints[j]))
+//@     invariant [C02] eUpSent(verifG2, rangeindex7) <==> (exists j int :: 0 <= j && j <= rangeindex && pm(p, nodeUp.EdgePoints[j]) && newer(p, nodeUp.EdgePoints[j]))
+//@     invariant [C02] forall a int :: 0 <= a && a < rangeindex7 ==> (upDue(nodeLocal.EdgePoints, nodeUp.EdgePoints, a) <==> eUpSent(verifG2, a))
+//@     invariant [C02] forall a int :: a < 0 || a > rangeindex7 ==> !eUpSent(verifG2, a)
+//@     invariant [C02] forall a int, j int :: 0 <= a && a <= rangeindex7 && 0 <= j && j < len(nodeUp.EdgePoints) && (a < rangeindex7 || j <= rangeindex) && pm(nodeLocal.EdgePoints[a], nodeUp.EdgePoints[j]) ==> has(upstreamProcessed, j) && (newer(nodeUp.EdgePoints[j], nodeLocal.EdgePoints[a]) ==> eDownSent(verifG2, j))
+//@     invariant [C02] forall j int :: has(upstreamProcessed, j) ==> 0 <= j && j < len(nodeUp.EdgePoints) && (exists a int :: 0 <= a && a <= rangeindex7 && (a < rangeindex7 || j <= rangeindex) && pm(nodeLocal.EdgePoints[a], nodeUp.EdgePoints[j]))
+//@     modifies upstreamProcessed, state(up.nc), state(client.verifGhost2)
+//@     decreases len(nodeUp.EdgePoints) - rangeindex
+//@   loop 9:
+//@     invariant -1 <= rangeindex && rangeindex < len(nodeUp.EdgePoints) || rangeindex == -1
+//@     invariant [C02] forall a int :: 0 <= a && a < len(nodeLocal.EdgePoints) ==> (upDue(nodeLocal.EdgePoints, nodeUp.EdgePoints, a) <==> eUpSent(verifG2, a))
+//@     invariant [C02] forall a int :: a < 0 || a >= len(nodeLocal.EdgePoints) ==> !eUpSent(verifG2, a)
+//@     invariant [C02] forall a int, j int :: 0 <= a && a < len(nodeLocal.EdgePoints) && 0 <= j && j < len(nodeUp.EdgePoints) && pm(nodeLocal.EdgePoints[a], nodeUp.EdgePoints[j]) ==> has(upstreamProcessed, j) && (newer(nodeUp.EdgePoints[j], nodeLocal.EdgePoints[a]) ==> eDownSent(verifG2, j))
+//@     invariant [C02] forall j int :: has(upstreamProcessed, j) ==> 0 <= j && j < len(nodeUp.EdgePoints) && (exists a int :: 0 <= a && a < len(nodeLocal.EdgePoints) && pm(nodeLocal.EdgePoints[a], nodeUp.EdgePoints[j]))
+//@     invariant [C02] forall j int :: 0 <= j && j <= rangeindex && !has(upstreamProcessed, j) ==> eDownSent(verifG2, j)
+//@     invariant [C02] forall j int :: 0 <= j && j <= rangeindex && (forall a int :: 0 <= a && a < len(nodeLocal.EdgePoints) ==> !pm(nodeLocal.EdgePoints[a], nodeUp.EdgePoints[j])) ==> eDownSent(verifG2, j)
+//@     modifies state(up.nc), state(client.verifGhost2)
+//@     decreases len(nodeUp.EdgePoints) - rangeindex
+//@   loop 10:
+//@     merge
+//@     invariant -1 <= rangeindex && rangeindex < len(children) || rangeindex == -1
+//@     invariant upChildProcessed != nil && allocd(upChildProcessed)
+//@     invariant [C02] forall a int, j int :: 0 <= a && a <= rangeindex && 0 <= j && j < len(upChildren) && children[a].ID == upChildren[j].ID ==> has(upChildProcessed, j)
+//@     modifies upChildProcessed, state(up.nc), state(client.verifGhost), state(client.verifGhost2), up, &up.rootRemote, &up.subRemoteUp, &up.config.SyncCount
+//@     decreases len(children) - rangeindex
+//@   loop 11:
+//@     invariant -1 <= rangeindex && rangeindex < len(upChildren) || rangeindex == -1
+//@     invariant upChildProcessed != nil && allocd(upChildProcessed)
+//@     invariant 0 <= rangeindex10 && rangeindex10 < len(children) && child == children[rangeindex10]
+//@     invariant [C02] !found ==> (forall j int :: 0 <= j && j <= rangeindex ==> child.ID != upChildren[j].ID)
+//@     invariant [C02] forall a int, j int :: 0 <= a && a <= rangeindex10 && 0 <= j && j < len(upChildren) && (a < rangeindex10 || j <= rangeindex) && children[a].ID == upChildren[j].ID ==> has(upChildProcessed, j)
+//@     modifies upChildProcessed, state(up.nc), state(client.verifGhost), state(client.verifGhost2), up, &up.rootRemote, &up.subRemoteUp, &up.config.SyncCount
+//@     decreases len(upChildren) - rangeindex
+//@   loop 12:
+//@     invariant -1 <= rangeindex && rangeindex < len(upChildren) || rangeindex == -1
+//@     invariant [C02] forall a int, j int :: 0 <= a && a < len(children) && 0 <= j && j < len(upChildren) && children[a].ID == upChildren[j].ID ==> has(upChildProcessed, j)
+//@     modifies state(up.nc), state(client.verifGhost)
+//@     decreases len(upChildren) - rangeindex
+
 // ---- node.go: GetNodesForUser (C09) ---------------------------------------------------------------------------
 // below(nc, a, n): n is a descendant of a in the tree the bus shows.
 //@ axiom below_child: forall nc *nats.Conn, a string, c string :: triggers(isChild(nc, a, c)) ==> (isChild(nc, a, c) ==> below(nc, a, c))
